@@ -33,4 +33,38 @@ theorem ttlSkeleton_tie : ttlSkeleton =
    "if *cc.SMaxAge<=0", "return", "return", "cc.SMaxAge.AsDuration",
    "if *cc.MaxAge<=0", "return", "return", "cc.MaxAge.AsDuration",
    "if defaultTTL<=0", "return", "return"] := by decide +kernel
+/-- `responseCacheCollect` (mirrored by `RespCache.collect`): the storability checks, the count check
+    `len(values) != len(keys)`, one pass over the values that skips everything that is not an object, and the key of an
+    item is `responseCacheKeys[i]` with `i` the position of the value in the answer -/
+theorem collectGuards_tie : collectGuards =
+  ["if !l.responseCacheEnabled()",
+   "if len(prepared.responseCacheKeys) == 0",
+   "if prepared.skipLoad || prepared.responseCacheHit",
+   "if res.err != nil || len(res.out) == 0 || res.statusCode >= 400",
+   "if err != nil",
+   "if errorsPath == nil",
+   "if astjson.ValueIsNonNull(errs) && len(errs.GetArray()) > 0",
+   "if !ok",
+   "if entities == nil || entities.Type() != astjson.TypeArray",
+   "if len(values) != len(prepared.responseCacheKeys)",
+   "range i, value := values",
+   "if value.Type() != astjson.TypeObject",
+   "prepared.responseCacheKeys[i]"] := by decide +kernel
+/-- `responseCacheLookup` (mirrored by `RespCache.lookup`): no keys = miss, a lookup error = miss, fewer found than asked =
+    miss, a missing or empty value = miss, the synthesized array takes `found[key]` in key order -/
+theorem lookupGuards_tie : lookupGuards =
+  ["if !l.responseCacheEnabled()",
+   "if len(keys) == 0",
+   "if err != nil",
+   "if len(found) != len(keys)",
+   "range _, key := keys",
+   "found[key]",
+   "if !ok || len(item.Value) == 0",
+   "range i, key := keys",
+   "if i > 0",
+   "found[key]"] := by decide +kernel
+/-- `responseCacheFlush`: writes exactly what was collected, once; a write error is reported, never returned -/
+theorem flushSkeleton_tie : flushSkeleton =
+  ["if !l.responseCacheEnabled()", "return", "if len()==0", "return", "if err!=nil",
+   "l.ctx.responseCache.store.SetMany", "l.reportResponseCacheError"] := by decide +kernel
 end GqlVerif.Ties.C16
